@@ -124,7 +124,11 @@ func vxFinalEq(m *Map, c *vxContent, k1, k2 string) bool {
 
 // VxH_Map_par2: A ∥ B.
 func VxH_Map_par2(opA, opB, tableLen, chain, minLen, mode int) {
-	m, c := vxArbMap(tableLen, chain, minLen)
+	forced := 0
+	if mode == 100 {
+		forced, mode = 1, -1 // concretely full table, no bound on the pre-state size
+	}
+	m, c := vxArbMap(tableLen, chain, minLen, forced)
 	kA, kB := VxStr("kA"), VxStr("kB")
 	if mode >= 10 {
 		// racers on one key
